@@ -152,7 +152,7 @@ def check(ctx):
                                 [{"kind": "func", "v": "gross"}, {"kind": "stream", "v": s2}],
                                 [{"kind": "func", "v": "spike"}], [{"kind": "stream", "v": "zzz"}],
                                 [{"kind": "test", "v": "valid"}], [{"kind": "func", "v": "valid"}, {"kind": "test", "v": "gross"}]]
-    n_cases = ctx.pick(120, 1500)
+    n_cases = ctx.pick(120, 6000)
     k = 0
     sess = 0
     for (s1, s2) in itertools.cycle(pairs):
@@ -204,7 +204,7 @@ def check(ctx):
         k += 1
     # cf_safe_name on every string of length 1..3 (quick) / 1..4 over a class-covering alphabet
     alpha = ["a", "Z", "1", "_", ".", "-", " "]
-    for ln in range(1, ctx.pick(3, 4) + 1):
+    for ln in range(1, ctx.pick(3, 5) + 1):
         for tup in itertools.product(alpha, repeat=ln):
             raw = "".join(tup)
             e = {"ev": "cfsafe", "raw": chars(raw), "out": [], "exc": "", "sess": 0}
